@@ -408,16 +408,19 @@ impl<'a> Gen<'a> {
             Body::Struct(f) => {
                 let fts = self.u.inst_fields(i, args, 0);
                 let mut s = String::from("Val::Rec(vec![");
+                // (fields of a packed structure cannot be borrowed: a copy is converted)
+                let packed = d.reprs.iter().any(|r| r.contains("packed"));
+                let access = |n: String| if packed { format!("&{{ x.{} }}", n) } else { format!("&x.{}", n) };
                 match f {
                     Fields::Unit => {}
                     Fields::Tuple(v) => {
                         for (n, (decl, ft)) in v.iter().zip(&fts).enumerate() {
-                            let _ = write!(s, "{}, ", conv(decl, ft, format!("&x.{}", n)));
+                            let _ = write!(s, "{}, ", conv(decl, ft, access(n.to_string())));
                         }
                     }
                     Fields::Named(v) => {
                         for ((name, decl), ft) in v.iter().zip(&fts) {
-                            let _ = write!(s, "{}, ", conv(decl, ft, format!("&x.{}", name)));
+                            let _ = write!(s, "{}, ", conv(decl, ft, access(name.clone())));
                         }
                     }
                 }
